@@ -501,7 +501,11 @@ mod imp {
         });
         let same = match (&vm, &reference) {
             (a, b) if a.get("ok").is_some() && b.get("ok").is_some() => a["ok"] == b["ok"],
-            (a, b) if a.get("err").is_some() && b.get("err").is_some() => a["err"] == b["err"],
+            // failures are compared by class: absent data (Binding / Attribute, exactly) versus any other failure
+            (a, b) if a.get("err").is_some() && b.get("err").is_some() => {
+                let absent = |k: &Value| k == "Binding" || k == "Attribute";
+                if absent(&a["err"]) || absent(&b["err"]) { a["err"] == b["err"] } else { true }
+            }
             _ => false,
         };
         json!({"vm": vm, "reference": reference, "agree": same})
